@@ -5,12 +5,14 @@ import (
 	"encoding/hex"
 	"encoding/json"
 	"fmt"
+	"io"
 	"os"
 	"os/exec"
 	"path/filepath"
 	"reflect"
 	"strings"
 	"testing"
+	"time"
 
 	"pgregory.net/rapid"
 
@@ -54,6 +56,7 @@ type caseC16 struct {
 	Src    string     `json:"src,omitempty"`
 	Target string     `json:"target,omitempty"`
 	File   []byte     `json:"file,omitempty"`
+	Input  *inputSpec `json:"input,omitempty"`
 	Script []readStep `json:"script,omitempty"`
 }
 
@@ -108,6 +111,11 @@ func observe16(c caseC16) (obs []string) {
 			put("out2", a2.Out)
 			put("err2", errStr(a2.Err))
 			put("blocks2", fmt.Sprintf("%#v", a2.Blocks))
+			// executing a Prog does not alter it: the second run is the first
+			if errStr(a.Err) != errStr(a2.Err) || a.Log != a2.Log || fmt.Sprintf("%#v", a.Blocks) != fmt.Sprintf("%#v", a2.Blocks) ||
+				strings.TrimSuffix(a.Out, tailStats(a.Out)) != strings.TrimSuffix(a2.Out, tailStats(a2.Out)) {
+				put("second-execute-differs", fmt.Sprintf("first: err=%q log=%q; second: err=%q log=%q", errStr(a.Err), a.Log, errStr(a2.Err), a2.Log))
+			}
 		}
 		if len(c.Script) > 0 {
 			fr := parseFileWatch(&scriptFile{data: []byte(c.Src), script: c.Script, name: "n"}, timeout20)
@@ -115,6 +123,23 @@ func observe16(c caseC16) (obs []string) {
 			put("flog", fr.log)
 			put("fdump", hex.EncodeToString(fr.dump))
 			put("ftimeout", fr.timedOut)
+		}
+	case "file-fault":
+		// an input with an early lexical failure whose reader fails later: the
+		// returned error must not depend on the schedule
+		var log lockedBuf
+		f := &scriptFile{data: []byte(c.Input.source()), script: c.Script, name: "n"}
+		done := make(chan error, 1)
+		go func() {
+			_, err := bcl.ParseFile(f, bcl.OptLogger(&log), bcl.OptOutput(io.Discard))
+			done <- err
+		}()
+		select {
+		case err := <-done:
+			put("err", errStr(err))
+			put("log", log.String())
+		case <-time.After(timeout20):
+			put("timeout", true)
 		}
 	case "unmarshal":
 		tgt := newTarget16(c.Target)
@@ -140,6 +165,9 @@ func observe16(c caseC16) (obs []string) {
 	return obs
 }
 
+// tailStats cuts nothing: statistics are part of both runs alike.
+func tailStats(string) string { return "" }
+
 // unrelated work between repeats (history independence)
 func noise16(i int) {
 	src := fmt.Sprintf("var a = %d\nvar b = \"s%d\"\ndef q \"n\" { x = a + %d; y = b; z = a * 3 }\nbind q -> struct\nprint a, b\n", i, i, i)
@@ -158,6 +186,9 @@ func noise16(i int) {
 
 func checkC16(c caseC16, repeats int) string {
 	first := digest16(c)
+	if i := strings.Index(first, "second-execute-differs="); i >= 0 {
+		return "executing the same Prog a second time gives a different outcome: " + clip(first[i:], 600)
+	}
 	for i := 1; i < repeats; i++ {
 		if i%3 == 1 {
 			noise16(i)
@@ -258,7 +289,16 @@ func staleSlotFile(t *rapid.T) []byte {
 }
 
 func genC16(t *rapid.T) (caseC16, bool, []string) {
-	switch gen.Weighted(t, "kind", 45, 45, 10) {
+	switch gen.Weighted(t, "kind", 40, 40, 10, 10) {
+	case 3:
+		in := inputSpec{Lines: gen.Int(t, 600, 3000, "lines"), LexAt: gen.Int(t, 0, 30, "lexline")}
+		c := caseC16{Kind: "file-fault", Input: &in}
+		// reads of whole pages, a read error some reads after the failure
+		for i, n := 0, gen.Int(t, 1, 5, "goodreads"); i < n; i++ {
+			c.Script = append(c.Script, readStep{N: 4096})
+		}
+		c.Script = append(c.Script, readStep{Err: "fail"})
+		return c, true, []string{"kind:file-fault"}
 	case 0:
 		cfg := acceptedCfg(t)
 		cfg.PIllegal = 15
@@ -326,7 +366,7 @@ func TestC16(t *testing.T) {
 			return
 		}
 		viol := checkC16(c, repeats)
-		rec.Case(nt, harness.Hash(c.Kind, c.Src, c.File, c.Target, fmt.Sprint(c.Script)), feats...)
+		rec.Case(nt, harness.Hash(c.Kind, c.Src, c.File, c.Target, fmt.Sprint(c.Script), fmt.Sprint(c.Input)), feats...)
 		if nt {
 			rec.Sample(func() any { return map[string]any{"kind": c.Kind, "src": clip(c.Src, 300), "target": c.Target} })
 		}
